@@ -506,10 +506,12 @@ class WinEPR:
     def draw(self, rng):
         rank = rng.randint(1, 2)
         ext = rng.sample([2, 3, 4, 5, 6, 7], rank) + [1] * (2 - rank)
-        return {"ext": ext, "rank": rank}
+        return {"ext": ext, "rank": rank, "dos": rng.random() < 0.7, "axis": rng.choice(["hcf", "gst"])}
 
     def systematic(self, rng):
-        return [{"ext": rng.sample([2, 3, 4, 5, 6, 7], rank) + [1] * (2 - rank), "rank": rank} for rank in (1, 2)]
+        """rank x {DOS little-endian float32, big-endian int32} x {field axis from HCF/HSW, from GST/GSI}"""
+        return [{"ext": rng.sample([2, 3, 4, 5, 6, 7], rank) + [1] * (2 - rank), "rank": rank, "dos": dos, "axis": ax}
+                for rank in (1, 2) for dos in (True, False) for ax in ("hcf", "gst")]
 
     def layout(self, c):
         x, y = c["ext"]
@@ -518,17 +520,17 @@ class WinEPR:
         return layout_json(0, 0, 0, 4, x, [y], [1, 0])      # Fortran order: x fastest
 
     def sample(self, c):
-        return ("f", 4, False, False)
+        return ("f", 4, False, False) if c.get("dos", True) else ("i", 4, True, False)
 
     def _par(self, c):
         x, y = c["ext"]
-        lines = ["DOS  Format", "ANZ %d" % (x * y), "MIN -1.0", "MAX 1.0", "JSS 0"]
+        lines = (["DOS  Format"] if c.get("dos", True) else []) + ["ANZ %d" % (x * y), "MIN -1.0", "MAX 1.0", "JSS 0"]
         if c["rank"] == 2:
             lines += ["SSX %d" % x, "SSY %d" % y, "XXLB 3400.000000", "XXWI 200.000000", "XYLB 15.000000", "XYWI %d.000000" % (y - 1),
                       "XXUN G", "XYUN dB"]
         else:
             lines += ["GST 3400.000000", "GSI 200.000000", "JUN G", "RES %d" % x]
-        lines += ["JSD 4", "HCF 3500.000000", "HSW 200.000000", "RCT 40.96", "RTC 10.24", "RRG 5.6e+003", "RMA 3.0", "MF  9.43",
+        lines += ["JSD 4"] + (["HCF 3500.000000", "HSW 200.000000"] if c.get("axis", "hcf") == "hcf" or c["rank"] == 2 else []) + ["RCT 40.96", "RTC 10.24", "RRG 5.6e+003", "RMA 3.0", "MF  9.43",
                   "MP  2.0e-001", "MPD 30.0", "TE  294.2"]
         return "\r\n".join(lines) + "\r\n"
 
